@@ -99,4 +99,10 @@ def run(ctx, chk):
             n += 1
         else:
             chk.cannot("S-ord", "Seq::partial_cmp", "expected exactly one PartialOrd impl for Seq, found %d" % len(bs))
+    import core
+    for cfg in ctx.configs():
+        chk.cfg = cfg.name
+        # numeric order of storage is colex only for canonical storage and the documented packing: imported rows
+        core.import_rows(chk, cfg, "C09", "props.C09", ("I-canon", "R24", "G22", "I-width2", "R23"))
+        core.import_rows(chk, cfg, "C04", "props.C04", ("I-endian", "I-order", "S-kmer-int"))
     chk.floor("comparator rows", n, 4 * len(chk.configs))
